@@ -178,3 +178,18 @@ def shutdown_during_backoff(rng, ident):
         s.append("force/2/nowait")
     s += ["waitev/onconnecterror/%d" % (1 if k == 1 else 1), "sleep/%d" % rng.choice([2, 10, 30]), "shutdown", "awaitall", "settle"]
     return " ".join(kv) + " script=" + ";".join(s)
+
+
+def shutdown_from_callback(rng, ident):
+    """the application calls Shutdown from inside a callback of the running sequence (its announcement, a connect error, the
+    connect callback itself): Shutdown must return and the sequence must end and release every waiter"""
+    cb = rng.choice(["ondisconnected", "onconnecterror", "onconnect"])
+    dials = {"ondisconnected": "ok", "onconnecterror": rng.choice(["fail,ok", "dns,ok"]), "onconnect": "ok"}[cb]
+    kv = ["conn", ident, "mode=conc", "lazy=1", "shutdownin=%s" % cb, "dials=%s" % dials, "conns=%s" % rng.choice(["ok", "fail,ok"])]
+    s = ["cmd/1/ok/0/nowait"]
+    if rng.chance(2, 3):
+        s.append("force/2/nowait")
+    if rng.chance(1, 2):
+        s.append("cmd/3/ok/0/nowait")
+    s += ["awaitall", "settle"]
+    return " ".join(kv) + " script=" + ";".join(s)
